@@ -101,6 +101,12 @@ def js_pow(a: Union[int, float], b: Union[int, float]) -> Union[int, float]:
         return float("nan")
 
 
+class NativeUnwind(Exception):
+    """A script exception was caught by a handler outside the innermost nested run
+    loop: the built-ins in between are abandoned by unwinding the host stack. The
+    interpreter state already points at the handler when this is raised."""
+
+
 @dataclass
 class ClosureCell:
     """A cell for closure variable - allows sharing between scopes."""
@@ -182,6 +188,8 @@ class VM:
         self.start_time: Optional[float] = None
         self.instruction_count = 0
         self.native_depth = 0  # nesting of script code run from built-ins
+        # call stack depth at entry of each nested run loop (innermost last)
+        self._native_entry: List[int] = []
 
         # Exception handling
         self.exception: Optional[JSValue] = None
@@ -289,6 +297,9 @@ class VM:
             except JSRangeError as e:
                 # Convert Python JSRangeError to JavaScript RangeError
                 self._handle_python_exception("RangeError", str(e))
+            except NativeUnwind:
+                # A handler of one of our frames took over; carry on from there
+                pass
 
             # Check if frame was popped (return)
             if not self.call_stack:
@@ -1645,22 +1656,8 @@ class VM:
         self, func: JSFunction, this_val: JSValue, args: List[JSValue]
     ) -> JSValue:
         """Internal method to call a function with explicit this and args."""
-        # Handle bound functions
-        if hasattr(func, "_bound_this"):
-            this_val = func._bound_this
-        if hasattr(func, "_bound_args"):
-            args = list(func._bound_args) + list(args)
-        if hasattr(func, "_original_func"):
-            func = func._original_func
-
-        # Use existing invoke mechanism
-        self._enter_native()
-        try:
-            self._invoke_js_function(func, args, this_val)
-            result = self._execute()
-        finally:
-            self.native_depth -= 1
-        return result
+        # Run it to completion in a nested loop that stops when this call returns
+        return self._call_callback(func, args, this_val)
 
     def _make_regexp_method(self, re: JSRegExp, method: str) -> Any:
         """Create a bound RegExp method."""
@@ -2424,7 +2421,20 @@ class VM:
         # Save current stack position AND call stack depth
         stack_len = len(self.stack)
         call_stack_len = len(self.call_stack)
+        self._native_entry.append(call_stack_len)
+        try:
+            return self._run_nested_loop(callback, args, this_val, stack_len, call_stack_len)
+        finally:
+            self._native_entry.pop()
 
+    def _run_nested_loop(
+        self,
+        callback: JSFunction,
+        args: List[JSValue],
+        this_val: JSValue,
+        stack_len: int,
+        call_stack_len: int,
+    ) -> JSValue:
         # Invoke the function
         self._invoke_js_function(
             callback, args, this_val if this_val is not None else UNDEFINED
@@ -2480,7 +2490,21 @@ class VM:
                 arg = bytecode[frame.ip]
                 frame.ip += 1
 
-            self._execute_opcode(op, arg, frame)
+            try:
+                self._execute_opcode(op, arg, frame)
+            except NativeUnwind:
+                # Continue here only if the handler belongs to one of our frames
+                if len(self.call_stack) <= call_stack_len:
+                    raise
+            except (JSTypeError, JSReferenceError, JSRangeError) as e:
+                # A try block inside the nested code catches it here; otherwise the
+                # host exception abandons the built-ins up to the handler's loop
+                if not (
+                    self.exception_handlers
+                    and self.exception_handlers[-1][0] >= call_stack_len
+                ):
+                    raise
+                self._handle_python_exception(e.name, str(e))
 
         # Get result from stack
         if len(self.stack) > stack_len:
@@ -2624,6 +2648,11 @@ class VM:
 
             # Push exception value
             self.stack.append(exc)
+
+            # The handler is outside the innermost nested run loop: abandon the
+            # built-ins in between
+            if self._native_entry and frame_idx < self._native_entry[-1]:
+                raise NativeUnwind()
         else:
             # Uncaught exception
             if isinstance(exc, str):
